@@ -66,3 +66,21 @@ for _names in (['n'], ['n', 'm']):
                           f"implies(not {SUB}, {KINDS} == {cache + system!r})",
                           f"[c[1] for c in result][:{k_}] == {_names!r}"],
                  floor=4, note=f'{k_} dependency name(s): overrides/cache first, then an already configured subproject, then the system (not consulted iff the fallback is forced and known), then configuring the subproject')
+
+# ---- nodownload: no network access whatever the wrap file offers (fallback URL included)
+from pyvc.api import Enum, TupleS
+WM = Enum('WrapMode', {k: f'mesonbuild.wrap:WrapMode.{k}' for k in ('default', 'nofallback', 'nodownload', 'forcefallback', 'nopromote')})
+DLS = Struct('Resolver', 'mesonbuild.wrap.wrap:Resolver', wrap=PkgS, dirname=Str, wrap_mode=WM)
+REG.contract('C10', W, 'Resolver.check_can_download', params={'self': DLS},
+             raises={'WrapException': 'self.wrap_mode is WrapMode.nodownload'}, floor=2,
+             note='refuses exactly under wrap_mode=nodownload')
+NET = "[e for e in __trace__ if e[0] in ('get_data_with_backoff', '_download', 'os.rename')]"
+REG.contract('C10', W, 'Resolver._download', variant='whole', params={'self': DLS, 'what': Str, 'ofname': Str, 'packagename': Str, 'fallback': Bool},
+             ensures=['self.wrap_mode is not WrapMode.nodownload',
+                      # a successful first attempt moved a download whose hash matched into place
+                      f"implies(len([e for e in __trace__ if e[0] == '_download']) == 0, [e[0] for e in __trace__ if e[0] != 'raised'][-1] == 'os.rename' and [e for e in __trace__ if e[0] == 'get_data_with_backoff'][0][-1][0] == lower(self.wrap.values[what + '_hash']))"],
+             on_raise=[f"implies(self.wrap_mode is WrapMode.nodownload, len({NET}) == 0)"],
+             raises={'WrapException': 'True'}, exact_raises=False,
+             method_effects={'get_data_with_backoff': {'returns': TupleS(Str, Str), 'raises': ['WrapException']}, '_download': {'returns': Opt(Obj), 'raises': ['WrapException']}},
+             floor=6,
+             note='under nodownload neither the primary nor the fallback URL is contacted and nothing is moved into the cache; otherwise only a download whose hash matched is renamed into place (the fallback attempt is the recursive call, an effect here)')
